@@ -55,8 +55,12 @@ def gen_cfg(rng: random.Random):
     return {"crit": crit, "tol": tol, "thr": thr, "bf": bf}
 
 
-def gen_history(rng: random.Random, max_ops: int = 8, max_rows: int = 20, with_bad=True):
+def gen_history(rng: random.Random, max_ops: int = 8, max_rows: int = 20, with_bad=True, user_labels=False):
+    """user_labels: every fit passes caller-chosen, distinct, non-contiguous labels
+    (fit(X, reinsert_indices=...)); such histories contain no refine (refine indexes X by label)"""
     cfg = gen_cfg(rng)
+    pool = list(range(0, 400))
+    rng.shuffle(pool)
     nf = rng.choice([3, 5, 8, 11, 16, 24])
     ops = []
     protos = None
@@ -74,9 +78,13 @@ def gen_history(rng: random.Random, max_ops: int = 8, max_rows: int = 20, with_b
             if with_bad and rng.random() < 0.06 and n >= 2:
                 op["form"] = "unpacked-list"
                 op["bad_at"] = rng.randint(1, n - 1)
+            if user_labels:
+                op["labels"] = [pool.pop() for _ in range(n)]
+                if rng.random() < 0.4:
+                    op["labels"].sort()
             ops.append(op)
             fitted_any = True
-        elif r < 0.58:
+        elif r < 0.58 and not user_labels:
             ops.append({"op": "refine", "n_largest": rng.choice([0, 1, 1, 2, 3, -1]),
                         "initial_mol": 0})
         elif r < 0.72:
